@@ -516,3 +516,58 @@ def c09(ck):
                "(self-test against an over-strict transcription); non-trivial = distinct layouts")
     # self-test: rpmbuild output must satisfy the transcribed rules too (guards against an over-strict HdrChk)
     ck.finish()
+
+
+# ------------------------------------------------------------------------------------ C03
+TRACE_MODULE["C03"] = "Trace_C03"
+
+
+@prop("C03")
+def c03(ck):
+    binary = vlib.build_harness()
+    thorough = ck.tier == "thorough"
+    ck.add_tlc(vlib.mc("MC_Digests", "MC_Digests.cfg", ck.scratch, workers=4))
+    cases = ck.scratch / "digest_cases.ndjson"
+    ck.add_tlc(vlib.gen_cases("Gen_Digests", "Gen_Digests.cfg", ck.scratch, cases))
+    def to_ok(e):
+        e["outcome"] = "ok"
+    def to_err(e):
+        e["outcome"] = "DigestMismatchError"
+    tr = ck.scratch / "c03.ndjson"
+    vlib.run_harness(binary, ["c03", "--out", tr, "--seed", ck.seed, "--cases", cases, "--flips", 40000 if thorough else 2500])
+    events = read_ndjson(tr)
+    for e in events:
+        if "case_d" in e and e.get("d") != e["case_d"]:
+            raise ToolError(f"harness materialised a digest row wrongly: {e}")
+    by_id = {e["id"]: e for e in events}
+    nid = max(by_id) + 1
+    canaries = []
+    for pred, mut in ((lambda e: e["event"] == "Digest" and e["outcome"] == "DigestMismatchError", to_ok),
+                      (lambda e: e["event"] == "Digest" and e["outcome"] == "ok" and e["d"]["sha256"] == "match" and e["d"]["payload"] in ("match", "absent"), to_err)):
+        c = _first(events, pred, "C03")
+        mut(c)
+        c["id"] = nid
+        canaries.append(nid)
+        nid += 1
+        events.insert(0, c)
+    write_ndjson(tr, events)
+    v = vlib.validate_trace("Trace_C03", "Trace_C03.cfg", ck.scratch, tr, shards=8)
+    ck.add_validation(v)
+    rej = ck.expect_canary(v["rejects"], canaries)
+    add_rejects(ck, rej, by_id, lambda e, r: f"{e['event']}:{json.dumps(e.get('d'), sort_keys=True)}:{e.get('outcome')}" if e else "?")
+    dig = [e for e in events if e["event"] == "Digest" and e["id"] not in canaries]
+    ck.evaluations = len(dig)
+    ck.nontrivial = len({(json.dumps(e["d"], sort_keys=True), e["outcome"]) for e in dig})
+    ck.extra["outcomes"] = {}
+    for e in dig:
+        ck.extra["outcomes"][e["outcome"]] = ck.extra["outcomes"].get(e["outcome"], 0) + 1
+    ck.extra["parse_errors_no_claim"] = sum(1 for e in events if e["event"] == "ParseErr")
+    sample_events(ck, dig, {"Digest"}, per_kind=3)
+    ck.rule = ("the complete decision table {absent, wrongtype, match, mismatch}^3 x payload {absent, wrongtype, match, "
+               "mismatch, empty} x algorithm {absent, wrongtype, sha256, other known, unknown} with the wrong byte "
+               "first / middle / last, materialised on a hand-encoded package; plus single-bit flips of header and "
+               "payload of intact assets and built packages with the digest state re-derived by the harness; "
+               "non-trivial = distinct (digest state, outcome)")
+    ck.assumptions += ["a digest is 'recorded' when its tag is present with its standard data type; a payload digest "
+                       "only together with its algorithm tag", "hash functions collision-free; computed by sha2/sha1/md-5 directly"]
+    ck.finish()
